@@ -435,7 +435,7 @@ pub fn gen(prop: &str, rng: &mut Rng, quick: bool, st: &mut Stats) -> Option<Vec
             // reader makes of it, it must make the same of it under every fragmentation
             for (k, comp) in [2u8, 3, 4, 1].iter().enumerate() {
                 let mut s2 = Stats::default();
-                let f = gen_foreign(rng, &ForeignOpts { n: 5, depth: (k % 2) as u32, icomp: *comp, permute: false, unordered: false, empty_meta: false, merge_runs: true, unknown_counts: false }, &mut s2);
+                let f = gen_foreign(rng, &ForeignOpts { n: 5, depth: (k % 2) as u32, icomp: *comp, permute: false, unordered: false, empty_meta: false, merge_runs: true, unknown_counts: false, multi_frame: false }, &mut s2);
                 let h = &f.header;
                 let mut meta = f.bytes[h.meta_off as usize..(h.meta_off + h.meta_len) as usize].to_vec();
                 meta.extend_from_slice(&[0u8; 9][..1 + k * 2]);
